@@ -31,6 +31,13 @@ FLAVOURS['tsan'] = {
     'run_env': {'TSAN_OPTIONS': 'halt_on_error=1:exitcode=66:abort_on_error=0'},
 }
 
+FLAVOURS['miri'] = {
+    # Miri interpreter (UB, alignment, provenance, uninitialised reads) on tiny workloads of the pure in-memory components;
+    # the wrapper compiles on first use (cargo miri has no separate build step), rkyv comes from harness/vendor (see DESIGN.md 5)
+    'cmd': ['true'],
+    'bin': 'bin/miri_axv',
+}
+
 EXPLORATION_ASSUMPTIONS = [
     'the reference model (harness/src/model.rs) is the SQL semantics the property refers to',
     'release-equivalent build (debug assertions and overflow checks off), feature verif on',
@@ -307,6 +314,10 @@ for cid, t in [('C16', 4), ('C05', 2), ('C08', 2), ('C11', 4)]:
     CHECKS[cid]['technique'] += '; AddressSanitizer leg in the thorough tier'
     CHECKS[cid]['level_note'] += SAN_NOTE
 CHECKS['C10']['legs']['thorough'] = CHECKS['C10']['legs']['thorough'] + [asan(16, args=['--atom', 'smallex'], shard_offset=0)]
+for cid in ['C18', 'C19']:
+    CHECKS[cid]['legs']['thorough'] = CHECKS[cid]['legs']['thorough'] + [{'flavour': 'miri', 'shards': 4, 'tier_override': 'miri', 'shard_offset': 200, 'timeout': 3000}]
+    CHECKS[cid]['technique'] += '; Miri leg in the thorough tier'
+    CHECKS[cid]['level_note'] += ' Miri leg (thorough): about 250 cases per run interpreted by Miri (undefined behaviour, misaligned or uninitialised reads in the tuple / value code end the worker).'
 CHECKS['C14']['legs']['quick'] = CHECKS['C14']['legs']['quick'] + [{'flavour': 'tsan', 'shards': 2, 'tier_override': 'quick', 'shard_offset': 100, 'timeout': 2400}]
 CHECKS['C14']['legs']['thorough'] = CHECKS['C14']['legs']['thorough'] + [{'flavour': 'tsan', 'shards': 16, 'tier_override': 'quick', 'shard_offset': 100, 'timeout': 2400}]
 CHECKS['C14']['technique'] = CHECKS['C14']['technique'].replace('ThreadSanitizer leg in the thorough tier', 'ThreadSanitizer leg (instrumented std)')
